@@ -315,6 +315,9 @@ def tensordot(a, b, axes, node=None):
                 if x[0] == "dim" and x[1][0] == "S" and x[1][1] == s and x[1][2] is None:
                     tgt[k] = dim("S", s, slot)
             hist.append(("sph", s, slot))
+            # factors that were multiplied into the transformation matrix travel with it
+            for h in other.history:
+                hist.append((h[0], h[1], h[2], slot) + tuple(h[4:]) + (("via-transform",),) if h[0] == "mul" else ("via-transform",) + tuple(h))
         elif other.content is not None and other.content[0] == "ext" and xb[0] == "dim" and xb[1][0] == "basis":
             pos = xb[1][1]
             which = other.content[1]
